@@ -4,7 +4,7 @@ SPEC = {
     "gen": [],
     "streams": [
         {"name": "sched", "cmd": "sched",
-         "args": {"quick": ["-cases", "130"], "thorough": ["-cases", "3000"]},
+         "args": {"quick": ["-cases", "100"], "thorough": ["-cases", "3000"]},
          "search_args": ["-cases", "700"]},
     ],
     "trusted_base": [
